@@ -154,7 +154,7 @@ Theorem wrap_values x r : WF x -> as_npres (wrap x) = Some r -> r = f (dat x).
 Proof.
   intros Hx H. destruct (f (dat x)) as [a|o] eqn:Hf.
   - destruct (shape a) as [|n0 s] eqn:Hs.
-    + unfold wrap, array_function, init_out in H. rewrite Hf, Hs in H. discriminate.
+    + unfold wrap, array_function, init_out in H. rewrite Hf, Hs in H. simpl in H. congruence.
     + rewrite (wrap_unfold x a n0 s Hx Hf Hs) in H.
       destruct (n0 =? length (t_of x))%nat; [|simpl in H; congruence].
       destruct (get_class_finish a (t_of x) (sup_of x) (kept_cols x a) n0 s Hs) as (cc & E & _ & _).
@@ -187,10 +187,10 @@ Proof.
   - apply Nat.eqb_neq in En. split; [split; [intros [r Hr]; discriminate|intros; contradiction]|reflexivity].
 Qed.
 
-(* a non-array result (NumPy scalar, tuple) and a 0-d array *)
+(* a non-array result (NumPy scalar, tuple) and a 0-d array are passed through *)
 Theorem wrap_other x o : f (dat x) = NOther o -> wrap x = OOther o.
 Proof. intros Hf. unfold wrap, array_function, init_out. rewrite Hf. reflexivity. Qed.
-Theorem wrap_zero_dim x a : f (dat x) = NArr a -> shape a = [] -> wrap x = OErr EIndex.
+Theorem wrap_zero_dim x a : f (dat x) = NArr a -> shape a = [] -> wrap x = OArr a.
 Proof. intros Hf Hs. unfold wrap, array_function, init_out. rewrite Hf, Hs. reflexivity. Qed.
 
 (* 4. class from the result's rank; column labels kept iff frame -> frame with the same column count *)
@@ -624,7 +624,6 @@ Qed.
 Theorem split_partition (x : ts V) (array_split : bool) (ios : nat + list nat) (pts : list nat) :
   WF x ->
   np_div_points (negb array_split) ios (length (t_of x)) = Some (0%nat :: pts) ->
-  np_div_points true ios (length (t_of x)) = Some (0%nat :: pts) ->
   nd_from 0 pts -> last pts 0%nat = length (t_of x) ->
   exists rs, @split_tsd V W x array_split ios = inl (map OTs rs)
              /\ Forall2 (piece_ok x) (bounds (0%nat :: pts)) rs
@@ -632,7 +631,7 @@ Theorem split_partition (x : ts V) (array_split : bool) (ios : nat + list nat) (
              /\ concat (map (fun r => cells (dat r)) rs) = cells (dat x)
              /\ concat (map (fun r => combine (t_of r) (rows (dat r))) rs) = combine (t_of x) (rows (dat x)).
 Proof.
-  intros Hx Hv Hi Hnd Hlast. unfold split_tsd. rewrite Hv, Hi. unfold row_pieces.
+  intros Hx Hv Hnd Hlast. unfold split_tsd. rewrite Hv. unfold row_pieces.
   rewrite !pieces_bounds.
   destruct (split_pieces_all x _ (bounds (0%nat :: pts)) Hx eq_refl) as (rs & E & F).
   exists rs. rewrite E. split; [reflexivity|]. split; [exact F|].
@@ -719,21 +718,6 @@ Ltac wf_concrete := constructor; cbn;
 
 Definition w_tsd (t : list Z) (sup : iset) (c : list Z) : ts Z := mkTs CTsd t sup (mkArr [length t] c) [].
 
-(* np.squeeze on a series of length 1: NumPy returns a 0-d array, the wrapper raises IndexError *)
-Lemma zero_dim_witness :
-  exists (x : ts Z) (f : arr Z -> npres Z unit) (a : arr Z),
-    WF x /\ f (dat x) = NArr a /\ wf_arr a /\ array_function x FPlain f = OErr EIndex.
-Proof.
-  exists (w_tsd [0] [(-1, 1)] [5]), (fun a => NArr (mkArr [] (cells a))), (mkArr [] [5]).
-  split; [wf_concrete|]. repeat split.
-Qed.
-
-(* np.array_split(x, 2) on 3 samples: NumPy divides the values 2 + 1, the index is divided with np.split -> ValueError *)
-Lemma array_split_uneven_witness :
-  exists x : ts Z, WF x /\ np_div_points false (inl 2%nat) (length (t_of x)) = Some [0; 2; 3]%nat
-                   /\ @split_tsd Z unit x true (inl 2%nat) = inr EValueSplit.
-Proof. exists (w_tsd [0; 10; 20] [(-1, 21)] [5; 6; 7]). split; [wf_concrete|]. split; reflexivity. Qed.
-
 (* np.hsplit of a Tsd splits along time, but every piece is matched against the WHOLE index: raw arrays come back *)
 Lemma hsplit_1d_witness :
   exists (x : ts Z) (p1 p2 : arr Z),
@@ -784,26 +768,18 @@ Qed.
 
 (* ------------------------------------------------------------------------------------------ *)
 (* split along time, in the two call forms *)
-Lemma div_points_even b N n : (0 < N)%nat -> (n mod N = 0)%nat ->
-  np_div_points b (inl N) n = np_div_points true (inl N) n.
-Proof.
-  intros HN Hm. unfold np_div_points. destruct (N =? 0)%nat; [reflexivity|]. rewrite Hm. simpl.
-  rewrite !andb_false_r. reflexivity.
-Qed.
-
 Theorem split_sections_partition {V W} (x : ts V) (array_split : bool) (N : nat) :
-  WF x -> (0 < N)%nat -> (length (t_of x) mod N = 0)%nat ->
-  exists pts rs, np_div_points true (inl N) (length (t_of x)) = Some (0%nat :: pts)
+  WF x -> (0 < N)%nat -> (array_split = true \/ (length (t_of x) mod N = 0)%nat) ->
+  exists pts rs, np_div_points (negb array_split) (inl N) (length (t_of x)) = Some (0%nat :: pts)
     /\ @split_tsd V W x array_split (inl N) = inl (map OTs rs)
     /\ Forall2 (piece_ok x) (bounds (0%nat :: pts)) rs
     /\ concat (map t_of rs) = t_of x
     /\ concat (map (fun r => cells (dat r)) rs) = cells (dat x)
     /\ concat (map (fun r => combine (t_of r) (rows (dat r))) rs) = combine (t_of x) (rows (dat x)).
 Proof.
-  intros Hx HN Hm. destruct (div_points_sections false N _ HN (or_intror Hm)) as (pts & E & Hnd & Hl). cbn [negb] in E.
-  destruct (split_partition (W := W) x array_split (inl N) pts Hx) as (rs & H); try assumption.
-  - rewrite (div_points_even _ N _ HN Hm). exact E.
-  - exists pts, rs. split; [exact E|exact H].
+  intros Hx HN Hm. destruct (div_points_sections array_split N _ HN Hm) as (pts & E & Hnd & Hl).
+  destruct (split_partition (W := W) x array_split (inl N) pts Hx E Hnd Hl) as (rs & H).
+  exists pts, rs. split; [exact E|exact H].
 Qed.
 
 Theorem split_indices_partition {V W} (x : ts V) (array_split : bool) (ix : list nat) :
@@ -814,6 +790,48 @@ Theorem split_indices_partition {V W} (x : ts V) (array_split : bool) (ix : list
     /\ concat (map (fun r => cells (dat r)) rs) = cells (dat x)
     /\ concat (map (fun r => combine (t_of r) (rows (dat r))) rs) = combine (t_of x) (rows (dat x)).
 Proof.
-  intros Hx Hix. destruct (div_points_indices true ix _ Hix) as (E & Hnd & Hl).
-  apply (split_partition (W := W) x array_split (inr ix) (ix ++ [length (t_of x)]) Hx); try assumption; try reflexivity.
+  intros Hx Hix. destruct (div_points_indices (negb array_split) ix _ Hix) as (E & Hnd & Hl).
+  exact (split_partition (W := W) x array_split (inr ix) (ix ++ [length (t_of x)]) Hx E Hnd Hl).
+Qed.
+
+(* np.split (not array_split) into N sections that do not divide the length: NumPy itself raises, so does the wrapper *)
+Theorem split_uneven_rejected {V W} (x : ts V) (N : nat) : (0 < N)%nat -> (length (t_of x) mod N <> 0)%nat ->
+  @split_tsd V W x false (inl N) = inr EValueSplit.
+Proof.
+  intros HN Hm. unfold split_tsd, np_div_points. cbn [negb].
+  destruct (N =? 0)%nat eqn:E0; [reflexivity|].
+  apply Nat.eqb_neq in Hm. rewrite Hm. reflexivity.
+Qed.
+
+(* ------------------------------------------------------------------------------------------ *)
+(* ufuncs with several outputs: every output goes through the same wrapper as a single output *)
+Theorem ufunc_multi_is_wrap {V W} (x : ts V) (n : nat) (f : arr V -> list (npres V W)) : (n <= 1)%nat ->
+  array_ufunc_multi x true n f = Some (map (fun r => wrap (fun _ => r) x) (f (dat x))).
+Proof.
+  intros Hn. unfold array_ufunc_multi. cbn [negb]. destruct (1 <? n)%nat eqn:E; [apply Nat.ltb_lt in E; lia|]. reflexivity.
+Qed.
+
+Theorem ufunc_multi_refused {V W} (x : ts V) (n : nat) (f : arr V -> list (npres V W)) :
+  array_ufunc_multi x false n f = None /\ ((2 <= n)%nat -> array_ufunc_multi x true n f = None).
+Proof.
+  split; [reflexivity|]. intros Hn. unfold array_ufunc_multi. cbn [negb].
+  destruct (1 <? n)%nat eqn:E; [reflexivity|]. apply Nat.ltb_ge in E. lia.
+Qed.
+
+Definition ew_output {V W} (x : ts V) (r : npres V W) (y : ts V) : Prop :=
+  r = NArr (dat y) /\ kls y = kls x /\ t_of y = t_of x /\ sup_of y = sup_of x /\ (kls x = CFrame -> cols y = cols x).
+
+(* element-wise multi-output ufunc: every output comes back as a time series of x's class on x's time axis *)
+Theorem ufunc_multi_elementwise {V W} (x : ts V) (n : nat) (f : arr V -> list (npres V W)) : WF x -> (n <= 1)%nat ->
+  Forall (fun r => exists b, r = NArr b /\ wf_arr b /\ shape b = shape (dat x)) (f (dat x)) ->
+  exists ys, array_ufunc_multi x true n f = Some (map OTs ys) /\ Forall2 (ew_output x) (f (dat x)) ys.
+Proof.
+  intros Hx Hn H. rewrite (ufunc_multi_is_wrap x n f Hn).
+  induction H as [|r l (b & -> & Hw & Hs) _ IH]; [exists []; split; [reflexivity|constructor]|].
+  destruct IH as (ys & E & F).
+  assert (Hfw : forall a c : arr V, (fun _ : arr V => @NArr V W b) a = NArr c -> wf_arr c) by (intros a c Hc; congruence).
+  destruct (elementwise_returns_ts (fun _ => NArr b) Hfw x b Hx eq_refl Hs) as (y & Ey & K & T & S & D & Cc).
+  exists (y :: ys). split.
+  - cbn [map]. rewrite Ey. injection E as E. rewrite E. reflexivity.
+  - constructor; [|exact F]. unfold ew_output. rewrite D. repeat split; assumption.
 Qed.
